@@ -257,3 +257,85 @@ def explain_bomrd(*a):
 
 
 EXPLAIN = {"_rd": explain_rd, "_bomrd": explain_bomrd}
+
+
+# ------------------------------------------------------------------ download: the identifier comes from file content
+# `download --all` asks for whatever identifiers the project's files declare.  urlopen's documented contract:
+# http.client raises InvalidURL (not a URLError) when the request path contains a blank or a control character.
+import http.client as _hc  # noqa: E402
+
+import reuse.download as dlm  # noqa: E402
+
+ID_CARRIER = PARAMS.get("id_carrier", "My{}License")
+
+
+class _Resp:
+    def __enter__(self):
+        return self
+
+    def __exit__(self, *a):
+        return False
+
+    def getcode(self):
+        return 404
+
+
+def url_story(c0):
+    ident = ID_CARRIER.replace("{}", chr(c0))
+    seen = []
+
+    def fake_urlopen(url, *a, **k):
+        seen.append(url)
+        # the part of http.client.HTTPConnection._validate_path that matters here (blank, control character, DEL)
+        for ch in url:
+            o = ord(ch)
+            if o <= 32 or o == 127:
+                raise _hc.InvalidURL("URL can't contain control characters.")
+        return _Resp()
+
+    saved = dlm.urllib.request.urlopen
+    dlm.urllib.request.urlopen = fake_urlopen
+    try:
+        try:
+            dlm.download_license(ident)
+        except dlm.URLError:
+            return None, ident, seen  # the documented failure: reported as "could not download"
+        except Exception as exc:  # noqa
+            return "download_license let " + type(exc).__name__ + " escape for an identifier a file may declare", ident, seen
+    finally:
+        dlm.urllib.request.urlopen = saved
+    return "a 404 answer was not reported as URLError", ident, seen
+
+
+EXTRA = [0x80, 0x85, 0xA0, 0xFF, 0x100, 0x2028, 0x3000, 0xFFFD, 0x10FFFF]
+
+
+def _extra(c):
+    for v in EXTRA:
+        if c == v:
+            return True
+    return False
+
+
+def _url(c0: int) -> bool:
+    """
+    pre: 0 <= c0 < 128 or _extra(c0)
+    post: _
+    """
+    return url_story(c0)[0] is None
+
+
+def _url_reach(c0: int) -> bool:
+    """
+    pre: 0 <= c0 < 128 or _extra(c0)
+    post: False
+    """
+    return url_story(c0)[0] is None
+
+
+def explain_url(c0):
+    why, ident, seen = url_story(c0)
+    return {"identifier": ident, "url": [ascii(u) for u in seen], "why": why}
+
+
+EXPLAIN["_url"] = explain_url
